@@ -12,6 +12,7 @@ def pauliDispatch : Dispatch := fun op j =>
   | "ps.parse" => some (Pauli.opParse j)
   | "ps.refactor" => some (Pauli.opRefactor j)
   | "ps.mat" => some (Pauli.opMat j)
+  | "ps.entries" => some (Pauli.opEntries j)
   | "ps.ctor" => some (Pauli.opCtor j)
   | "ps.single" => some (Pauli.opSingle j)
   | "ps.setpauli" => some (Pauli.opSetPauli j)
